@@ -7,6 +7,7 @@ package simhook
 
 import (
 	"sync"
+	"sync/atomic"
 	"unsafe"
 )
 
@@ -151,3 +152,78 @@ type rlocker RWMutex
 
 func (r *rlocker) Lock()   { (*RWMutex)(r).RLock() }
 func (r *rlocker) Unlock() { (*RWMutex)(r).RUnlock() }
+
+// Pool replaces sync.Pool in instrumented code. sync.Pool's contract lets Get
+// return any object that was Put before, or a new one, at the runtime's whim
+// (per-P caches, GC); that whim is a source of nondeterminism the simulator
+// has to own: under the simulator the choice is the kernel's (Select), and
+// every pool is emptied at the start of a run so that one seed is one execution.
+type Pool struct {
+	New func() interface{}
+
+	mu    sync.Mutex
+	items []interface{}
+	known int32
+}
+
+var (
+	poolsMu sync.Mutex
+	pools   []*Pool
+)
+
+// ResetPools empties every pool that was used so far (start of a run).
+func ResetPools() {
+	poolsMu.Lock()
+	defer poolsMu.Unlock()
+	for _, p := range pools {
+		p.mu.Lock()
+		p.items = nil
+		p.mu.Unlock()
+	}
+}
+
+// register is called without p.mu held (ResetPools takes poolsMu, then p.mu).
+func (p *Pool) register() {
+	if atomic.CompareAndSwapInt32(&p.known, 0, 1) {
+		poolsMu.Lock()
+		pools = append(pools, p)
+		poolsMu.Unlock()
+	}
+}
+
+// Put adds x to the pool.
+func (p *Pool) Put(x interface{}) {
+	if x == nil {
+		return
+	}
+	p.register()
+	p.mu.Lock()
+	p.items = append(p.items, x)
+	p.mu.Unlock()
+}
+
+// Get returns a pooled object chosen by the simulator, or a new one.
+func (p *Pool) Get() interface{} {
+	p.mu.Lock()
+	n := len(p.items)
+	p.mu.Unlock()
+	choice := n // without simulator: most recently put
+	if h := H; h != nil && n > 0 {
+		// 0 = a new object, i = the i-th pooled one
+		choice = h.Select("sync.Pool.Get", n+1)
+	}
+	p.register()
+	p.mu.Lock()
+	if choice > 0 && choice <= len(p.items) {
+		x := p.items[choice-1]
+		p.items = append(p.items[:choice-1], p.items[choice:]...)
+		p.mu.Unlock()
+		return x
+	}
+	p.mu.Unlock()
+	// New is instrumented code and may park: never call it with the lock held
+	if p.New != nil {
+		return p.New()
+	}
+	return nil
+}
